@@ -93,6 +93,25 @@ pub mod unit_nuts {
     //@rules R-lit
     //@end
 
+    #[verifier::exec_allows_no_decreases_clause]
+    fn find_reasonable_epsilon<B: AutodiffBackend, GTarget: GradientTarget<B>>(position: Tensor<B, 1>, mom: Tensor<B, 1>, gradient_target: &GTarget) -> (r: T)
+        ensures true
+    //@body id=nuts_find_eps file=src/nuts.rs name=find_reasonable_epsilon props=C04,C14
+    //@sig fn find_reasonable_epsilon < B , T , GTarget > (position : Tensor < B , 1 > , mom : Tensor < B , 1 > , gradient_target : & GTarget ,) -> T where T : Float + Element , B : AutodiffBackend , GTarget : GradientTarget < T , B > + Sync ,
+    //@rules R-lit R-destruct
+    //@loop 1
+    //@| invariant v1(ulogp_prime).len() == 1, v1(ulogp).len() == 1,
+    //@loop 2
+    //@| invariant v1(ulogp_prime).len() == 1, v1(ulogp).len() == 1,
+    //@end
+
+    fn all_real<B: AutodiffBackend, X>(x: Tensor<B, 1>) -> (r: bool)
+        ensures r == !(exists |i: int| 0 <= i < v1(x).len() && !((#[trigger] v1(x)[i]) is Fin))         // [C14.all_real_is_finiteness_of_every_component]
+    //@body id=nuts_all_real file=src/nuts.rs name=all_real props=C14
+    //@sig fn all_real < B , T > (x : Tensor < B , 1 >) -> bool where T : Float + Element , B : AutodiffBackend ,
+    //@rules
+    //@end
+
     fn stop_criterion<B: AutodiffBackend>(position_minus: Tensor<B, 1>, position_plus: Tensor<B, 1>, mom_minus: Tensor<B, 1>, mom_plus: Tensor<B, 1>) -> (r: bool)
         ensures r == no_uturn(Pt { x: v1(position_minus), r: v1(mom_minus), g: seq![] }, Pt { x: v1(position_plus), r: v1(mom_plus), g: seq![] })   // [C03.stop_criterion_is_the_u_turn_test]
     //@body id=nuts_stop_criterion file=src/nuts.rs name=stop_criterion props=C03
@@ -116,7 +135,7 @@ pub mod unit_nuts {
     //@end
 
     // ---- the transition: outer loop of Algorithm 6 + dual averaging (C03, C04) -------------------
-    pub struct NUTSChain<B: AutodiffBackend, GTarget> {
+    pub struct NUTSChain<T, B: AutodiffBackend, GTarget> {
         //@fields file=src/nuts.rs name=NUTSChain
     }
     /// state of the doubling loop
@@ -178,7 +197,7 @@ pub mod unit_nuts {
         fexp(fadd(fmul(fsub(fli(1), eta), fln(eps_bar)), fmul(eta, fln(eps1))))
     }
     /// the adaptation part of a transition with acceptance statistic alpha / n_alpha
-    pub open spec fn da_post<B: AutodiffBackend, G: GradientTarget<B>>(pre: NUTSChain<B, G>, post: NUTSChain<B, G>, alpha: Fl, n_alpha: int) -> bool {
+    pub open spec fn da_post<B: AutodiffBackend, G: GradientTarget<B>>(pre: NUTSChain<Fl, B, G>, post: NUTSChain<Fl, B, G>, alpha: Fl, n_alpha: int) -> bool {
         let m1 = pre.m + 1;
         let hb = da_hbar(pre.h_bar, m1, pre.t_0 as int, pre.target_accept_p, alpha, n_alpha);
         &&& post.m == m1 && post.h_bar == hb
@@ -191,14 +210,14 @@ pub mod unit_nuts {
     /// C03 + C04: one NUTS transition: the doubling loop of Algorithm 6 runs k >= 1 times (it continues exactly while s),
     /// the chain moves to the point selected by the last state, the generator is the one left by the loop, and the step
     /// size is adapted with the acceptance statistic alpha/n_alpha of the LAST doubling
-    pub open spec fn nuts_step_at<B: AutodiffBackend, G: GradientTarget<B>>(pre: NUTSChain<B, G>, post: NUTSChain<B, G>, k: nat, pol: bool) -> bool {
+    pub open spec fn nuts_step_at<B: AutodiffBackend, G: GradientTarget<B>>(pre: NUTSChain<Fl, B, G>, post: NUTSChain<Fl, B, G>, k: nat, pol: bool) -> bool {
         let (st0, logu, joint0) = trans_start::<B, G>(&pre.target, v1(pre.position), state(pre.rng));
         let last = outer_iter::<B, G>(&pre.target, val(pre.epsilon), logu, joint0, pol, st0, k);
         &&& k >= 1 && all_continue::<B, G>(&pre.target, val(pre.epsilon), logu, joint0, pol, st0, k) && !last.s
         &&& v1(post.position) == last.x && state(post.rng) == last.rng
         &&& da_post::<B, G>(pre, post, mk(last.alpha), last.n_alpha as int)
     }
-    pub open spec fn nuts_step_post<B: AutodiffBackend, G: GradientTarget<B>>(pre: NUTSChain<B, G>, post: NUTSChain<B, G>) -> bool {
+    pub open spec fn nuts_step_post<B: AutodiffBackend, G: GradientTarget<B>>(pre: NUTSChain<Fl, B, G>, post: NUTSChain<Fl, B, G>) -> bool {
         exists |k: nat, pol: bool| #[trigger] nuts_step_at::<B, G>(pre, post, k, pol)
     }
     /// the program variables of the doubling loop hold the abstract loop state
@@ -208,6 +227,83 @@ pub mod unit_nuts {
         &&& st.j == j && st.n == n && st.s == s && st.x == v1(pos) && val(alpha) == st.alpha && n_alpha == st.n_alpha && st.rng == state(rng)
     }
     pub open spec fn T_sqrt_is(m: Fl, m1: int) -> bool { mk(xr_sqrt(val(m))) == mk(xr_sqrt(XR::Fin(m1 as real))) }
+    // ---- the multi-chain sampler ---------------------------------------------------------------
+    pub struct NUTS<T, B: AutodiffBackend, GTarget> {
+        //@fields file=src/nuts.rs name=NUTS
+    }
+    /// the per-chain seed documented for NUTS::set_seed: seed + i + 1, modulo 2^64
+    pub open spec fn nuts_chain_seed(seed: u64, i: int) -> u64 { ((seed as int + i + 1) % 0x1_0000_0000_0000_0000) as u64 }
+    /// PRNG quality assumption used by C08 only
+    pub axiom fn ax_seeded_injective(a: u64, b: u64) requires a != b ensures seeded(a) != seeded(b);
+
+    impl<B: AutodiffBackend, GTarget: GradientTarget<B> + VClone> NUTS<Fl, B, GTarget> {
+        pub fn new(target: GTarget, initial_positions: Vec<Vec<T>>, target_accept_p: T) -> (r: Self)
+            ensures
+                r.chains@.len() == initial_positions@.len(),                                                                            // [C09.nuts_new_count]
+                forall |c: int| 0 <= c < initial_positions@.len() ==> v1((#[trigger] r.chains@[c]).position) == xrs(initial_positions@[c]@),   // [C09.nuts_new_row_c_is_state_c]
+        //@body id=nuts_new file=src/nuts.rs impl_self=NUTS name=new props=C09
+        //@sig fn new (target : GTarget , initial_positions : Vec < Vec < T > > , target_accept_p : T) -> Self
+        //@rules R-mapcollect
+        //@outtype __vx_out1 Vec<NUTSChain<Fl, B, GTarget>>
+        //@anchor snap scope=fn pos=start
+        //@| let ghost init0 = initial_positions@;
+        //@loop 1 iter=it
+        //@| invariant
+        //@|     it.history@ + it.iter.remaining() == init0,
+        //@|     __vx_out1@.len() == it.history@.len(),
+        //@|     forall |c: int| 0 <= c < __vx_out1@.len() ==> v1((#[trigger] __vx_out1@[c]).position) == xrs(init0[c]@),
+        //@end
+
+        pub fn set_seed(self, seed: u64) -> (r: Self)
+            ensures
+                r.chains@.len() == self.chains@.len(),
+                forall |i: int| 0 <= i < r.chains@.len() ==> state((#[trigger] r.chains@[i]).rng) == seeded(nuts_chain_seed(seed, i)),      // [C07.nuts_per_chain_seed]
+                forall |i: int| 0 <= i < r.chains@.len() ==> (#[trigger] r.chains@[i]).position == self.chains@[i].position && r.chains@[i].m == self.chains@[i].m,
+                forall |i: int, j: int| 0 <= i < j < r.chains@.len() ==> state(r.chains@[i].rng) != state(r.chains@[j].rng),              // [C08.nuts_chains_distinct_streams]
+        //@body id=nuts_set_seed file=src/nuts.rs impl_self=NUTS name=set_seed props=C07,C08
+        //@sig fn set_seed (mut self , seed : u64) -> Self
+        //@rules R-mutself R-enum
+        //@anchor n0 scope=fn pos=start
+        //@| proof { ax_vec_len_le_isize_max(&self.chains); }
+        //@loop 1 iter=it
+        //@| invariant
+        //@|     it.iter.end == self.chains@.len(), __vx_self.chains@.len() == self.chains@.len(), self.chains@.len() <= isize::MAX as int,
+        //@|     forall |k: int| 0 <= k < i ==> state((#[trigger] __vx_self.chains@[k]).rng) == seeded(nuts_chain_seed(seed, k)),
+        //@|     forall |k: int| 0 <= k < self.chains@.len() ==> (#[trigger] __vx_self.chains@[k]).position == self.chains@[k].position && __vx_self.chains@[k].m == self.chains@[k].m,
+        //@anchor fin scope=fn pos=end
+        //@| proof {
+        //@|     let cs = __vx_self.chains@;
+        //@|     assert forall |i: int, j: int| 0 <= i < j < cs.len() implies state(cs[i].rng) != state(cs[j].rng) by {
+        //@|         ax_seeded_injective(nuts_chain_seed(seed, i), nuts_chain_seed(seed, j));
+        //@|     }
+        //@| }
+        //@end
+
+        pub fn run(&mut self, n_collect: usize, n_discard: usize) -> (out: Tensor<B, 3>)
+            requires n_collect >= 1, old(self).chains@.len() >= 1,
+                forall |c: int| 0 <= c < old(self).chains@.len() ==> (#[trigger] old(self).chains@[c]).m + old(self).chains@[c].t_0 + n_collect + n_discard < usize::MAX
+                    && v1(old(self).chains@[c].position).len() == v1(old(self).chains@[0].position).len(),
+            ensures
+                final(self).chains@.len() == old(self).chains@.len(),
+                v3(out).len() == old(self).chains@.len(),                                                                                // [C09.nuts_runner_n_chains]
+                forall |c: int| 0 <= c < old(self).chains@.len() ==>
+                    nuts_run_post::<B, GTarget>(#[trigger] old(self).chains@[c], final(self).chains@[c], v3(out)[c], n_collect as int, n_discard as int),   // [C09.nuts_runner_returns_exactly_what_its_chains_return]
+        //@body id=nuts_run file=src/nuts.rs impl_self=NUTS name=run props=C09
+        //@sig fn run (& mut self , n_collect : usize , n_discard : usize) -> Tensor < B , 3 >
+        //@rules R-par R-mapcollect
+        //@outtype __vx_out1 Vec<Tensor<B, 2>>
+        //@loop 1 iter=it
+        //@| invariant
+        //@|     it.iter.end == self.chains@.len(), self.chains@.len() == old(self).chains@.len(), n_collect >= 1,
+        //@|     __vx_out1@.len() == __vx_k1,
+        //@|     forall |c: int| __vx_k1 <= c < self.chains@.len() ==> (#[trigger] self.chains@[c]) == old(self).chains@[c],
+        //@|     forall |c: int| 0 <= c < old(self).chains@.len() ==> (#[trigger] old(self).chains@[c]).m + old(self).chains@[c].t_0 + n_collect + n_discard < usize::MAX
+        //@|         && v1(old(self).chains@[c].position).len() == v1(old(self).chains@[0].position).len(),
+        //@|     forall |c: int| 0 <= c < __vx_k1 ==> nuts_run_post::<B, GTarget>(#[trigger] old(self).chains@[c], self.chains@[c], v2(__vx_out1@[c]), n_collect as int, n_discard as int),
+        //@|     forall |c: int| 0 <= c < __vx_k1 ==> tdim2(#[trigger] __vx_out1@[c]) == (n_collect as int, v1(old(self).chains@[0].position).len() as int),
+        //@end
+    }
+
     /// the tree built at depth j has at most 2^j leaves
     pub proof fn lemma_bt_bounds<B: AutodiffBackend, G: GradientTarget<B>>(t: &G, p: Pt, logu: XR, v: int, j: nat, eps: XR, joint0: XR, s: RngState)
         ensures bt::<B, G>(t, p, logu, v, j, eps, joint0, s).0.n <= vstd::arithmetic::power2::pow2(j),
@@ -224,6 +320,31 @@ pub mod unit_nuts {
             vstd::arithmetic::power2::lemma_pow2_unfold(j);
         }
     }
+    /// every point of the tree lives in the space of the start point (vector lengths are kept by leapfrog)
+    pub proof fn lemma_bt_lens<B: AutodiffBackend, G: GradientTarget<B>>(t: &G, p: Pt, logu: XR, v: int, j: nat, eps: XR, joint0: XR, s: RngState)
+        ensures ({ let tr = bt::<B, G>(t, p, logu, v, j, eps, joint0, s).0; tr.cx.len() == p.x.len() && tr.minus.x.len() == p.x.len() && tr.plus.x.len() == p.x.len() })
+        decreases j
+    {
+        reveal_with_fuel(bt, 2);
+        if j > 0 {
+            let (t1, s1) = bt::<B, G>(t, p, logu, v, (j - 1) as nat, eps, joint0, s);
+            lemma_bt_lens::<B, G>(t, p, logu, v, (j - 1) as nat, eps, joint0, s);
+            lemma_bt_lens::<B, G>(t, if v == -1 { t1.minus } else { t1.plus }, logu, v, (j - 1) as nat, eps, joint0, s1);
+        }
+    }
+    pub proof fn lemma_outer_lens<B: AutodiffBackend, G: GradientTarget<B>>(t: &G, eps: XR, logu: XR, joint0: XR, pol: bool, st0: OSt, k: nat)
+        requires st0.minus.x.len() == st0.x.len(), st0.plus.x.len() == st0.x.len()
+        ensures ({ let st = outer_iter::<B, G>(t, eps, logu, joint0, pol, st0, k); st.x.len() == st0.x.len() && st.minus.x.len() == st0.x.len() && st.plus.x.len() == st0.x.len() })
+        decreases k
+    {
+        if k > 0 {
+            lemma_outer_lens::<B, G>(t, eps, logu, joint0, pol, st0, (k - 1) as nat);
+            let st = outer_iter::<B, G>(t, eps, logu, joint0, pol, st0, (k - 1) as nat);
+            let u1 = val(unif_out(st.rng));
+            let v: int = if xr_lt(u1, half()) == pol { 1 } else { -1 };
+            lemma_bt_lens::<B, G>(t, if v == -1 { st.minus } else { st.plus }, logu, v, st.j, eps, joint0, unif_next(st.rng));
+        }
+    }
     pub proof fn lemma_pow2_fits(j: nat)
         requires j <= 62
         ensures vstd::arithmetic::power2::pow2(j) <= 0x4000_0000_0000_0000
@@ -233,11 +354,92 @@ pub mod unit_nuts {
         if j < 62 { vstd::arithmetic::power2::lemma_pow2_strictly_increases(j, 62); }
     }
 
-    impl<B: AutodiffBackend, GTarget: GradientTarget<B>> NUTSChain<B, GTarget> {
+    /// ASSUMED law for user `Clone` impls (derive(Clone) semantics)
+    pub trait VClone: Sized { fn clone(&self) -> (r: Self) ensures r == *self; }
+
+    // ---- C09 for NUTSChain::run: history of chain values linked by the transition contract ----
+    pub open spec fn nuts_hist_ok<B: AutodiffBackend, G: GradientTarget<B>>(h: Seq<NUTSChain<Fl, B, G>>, first: NUTSChain<Fl, B, G>, last: NUTSChain<Fl, B, G>, total: int) -> bool {
+        &&& h.len() == total + 1 && h[0] == first && h[total] == last
+        &&& forall |i: int| 0 <= i < total ==> #[trigger] nuts_step_post::<B, G>(h[i], h[i + 1])
+    }
+    /// what init_chain does to the chain: stores the run lengths, draws dim normals, finds eps0 on first use only,
+    /// sets the shrinkage point mu = ln(10 eps); the position and the warm-up counter m are NOT touched
+    pub open spec fn init_rel<B: AutodiffBackend, G: GradientTarget<B>>(pre: NUTSChain<Fl, B, G>, post: NUTSChain<Fl, B, G>, n_collect: int, n_discard: int) -> bool {
+        &&& post.position == pre.position && post.m == pre.m && post.target == pre.target            // warm-up counter persists across runs
+        &&& post.n_collect == n_collect && post.n_discard == n_discard
+        &&& post.gamma == pre.gamma && post.t_0 == pre.t_0 && post.kappa == pre.kappa && post.target_accept_p == pre.target_accept_p
+            && post.epsilon_bar == pre.epsilon_bar && post.h_bar == pre.h_bar
+        &&& post.mu == fln(fmul(fli(10), post.epsilon))
+        &&& !(xr_le(xr_abs(xr_add(val(pre.epsilon), XR::Fin(1real))), XR::Fin(eps_r()))) ==> post.epsilon == pre.epsilon && state(post.rng) == normal_state(state(pre.rng), v1(pre.position).len())
+    }
+    /// row k of the result is the position after n_discard + k transitions counted from the (initialised) chain;
+    /// exactly n_collect + n_discard - 1 transitions are made and the chain is left at the last returned state
+    pub open spec fn nuts_run_post<B: AutodiffBackend, G: GradientTarget<B>>(pre: NUTSChain<Fl, B, G>, post: NUTSChain<Fl, B, G>, out: M, n_collect: int, n_discard: int) -> bool {
+        exists |h: Seq<NUTSChain<Fl, B, G>>| #![trigger nuts_hist_ok::<B, G>(h, h[0], post, n_collect + n_discard - 1)]
+            nuts_hist_ok::<B, G>(h, h[0], post, n_collect + n_discard - 1) && init_rel::<B, G>(pre, h[0], n_collect, n_discard)
+            && out.len() == n_collect
+            && forall |k: int| 0 <= k < n_collect ==> (#[trigger] out[k]) == v1(h[n_discard + k].position)
+    }
+
+    impl<B: AutodiffBackend, GTarget: GradientTarget<B>> NUTSChain<Fl, B, GTarget> {
+        pub fn new(target: GTarget, initial_position: Vec<T>, target_accept_p: T) -> (r: Self)
+            ensures
+                v1(r.position) == xrs(initial_position@),                                                             // [C09.nuts_chain_starts_at_initial_position]
+                r.m == 0 && r.t_0 == 10 && val(r.gamma) == XR::Fin(1real / 20real) && val(r.kappa) == XR::Fin(3real / 4real)
+                    && val(r.epsilon_bar) == XR::Fin(1real) && val(r.h_bar) == XR::Fin(0real) && val(r.epsilon) == XR::Fin(-1real),   // [C04.dual_averaging_constants_gamma_t0_kappa]
+                r.target == target && r.target_accept_p == target_accept_p,
+        //@body id=nuts_chain_new file=src/nuts.rs impl_self=NUTSChain name=new props=C04,C09
+        //@sig fn new (target : GTarget , initial_position : Vec < T > , target_accept_p : T) -> Self
+        //@rules R-lit
+        //@end
+
+        pub fn set_seed(self, seed: u64) -> (r: Self)
+            ensures state(r.rng) == seeded(seed), r.position == self.position && r.m == self.m && r.epsilon == self.epsilon && r.target == self.target,   // [C07.nuts_chain_set_seed]
+        //@body id=nuts_chain_set_seed file=src/nuts.rs impl_self=NUTSChain name=set_seed props=C07
+        //@sig fn set_seed (mut self , seed : u64) -> Self
+        //@rules R-mutself
+        //@end
+
+        #[verifier::exec_allows_no_decreases_clause]
+        pub fn run(&mut self, n_collect: usize, n_discard: usize) -> (out: Tensor<B, 2>)
+            requires n_collect >= 1, old(self).m + old(self).t_0 + n_collect + n_discard < usize::MAX
+            ensures nuts_run_post::<B, GTarget>(*old(self), *final(self), v2(out), n_collect as int, n_discard as int),     // [C09.nuts_run_rows_count_left_at_last]
+                tdim2(out) == (n_collect as int, v1(old(self).position).len() as int),
+        //@body id=nuts_chain_run file=src/nuts.rs impl_self=NUTSChain name=run props=C09,C04
+        //@sig fn run (& mut self , n_collect : usize , n_discard : usize) -> Tensor < B , 2 >
+        //@rules
+        //@anchor h0 scope=fn pos=after match="^let \\(dim , mut sample\\)"
+        //@| let ghost c0 = *self;
+        //@| let ghost mut h: Seq<NUTSChain<Fl, B, GTarget>> = seq![*self];
+        //@loop 1 iter=it
+        //@| invariant
+        //@|     it.iter.end == n_collect + n_discard, 1 <= m, n_collect >= 1, dim == v1(c0.position).len(),
+        //@|     self.t_0 == c0.t_0, self.m == c0.m + m - 1, c0.m + c0.t_0 + n_collect + n_discard < usize::MAX, v1(self.position).len() == dim,
+        //@|     nuts_hist_ok::<B, GTarget>(h, c0, *self, m - 1),
+        //@|     tdim2(sample) == (n_collect as int, dim as int),
+        //@|     forall |k: int| 0 <= k < n_collect && n_discard + k <= m - 1 ==> (#[trigger] v2(sample)[k]) == v1(h[n_discard + k].position),
+        //@|     n_discard >= 1 ==> v2(sample)[0] == v1(c0.position) || n_discard <= m - 1,
+        //@anchor p scope=loop:1 pos=after match="^self \\. step \\(\\)"
+        //@| proof { h = h.push(*self); }
+        //@end
+
+        #[verifier::exec_allows_no_decreases_clause]
+        fn init_chain(&mut self, n_collect: usize, n_discard: usize) -> (r: (usize, Tensor<B, 2>))
+            requires n_collect >= 1
+            ensures
+                init_rel::<B, GTarget>(*old(self), *final(self), n_collect as int, n_discard as int),              // [C04.init_chain_eps0_on_first_use_mu_is_ln_10_eps_counter_kept]
+                r.0 == v1(old(self).position).len(), tdim2(r.1) == (n_collect as int, r.0 as int),
+                v2(r.1)[0] == v1(old(self).position),                                                                // [C09.nuts_first_kept_draw_is_the_current_state]
+        //@body id=nuts_init_chain file=src/nuts.rs impl_self=NUTSChain name=init_chain props=C04,C09,C14
+        //@sig fn init_chain (& mut self , n_collect : usize , n_discard : usize) -> (usize , Tensor < B , 2 >)
+        //@rules R-sampleiter
+        //@end
+
         #[verifier::exec_allows_no_decreases_clause]
         pub fn step(&mut self)
             requires old(self).m + old(self).t_0 < usize::MAX
-            ensures nuts_step_post::<B, GTarget>(*old(self), *final(self))          // [C03.transition_is_algorithm_6]
+            ensures nuts_step_post::<B, GTarget>(*old(self), *final(self)),          // [C03.transition_is_algorithm_6]
+                final(self).m == old(self).m + 1 && final(self).t_0 == old(self).t_0 && v1(final(self).position).len() == v1(old(self).position).len(),
         //@body id=nuts_step file=src/nuts.rs impl_self=NUTSChain name=step props=C03,C04,C14,C07
         //@sig fn step (& mut self)
         //@rules R-lit R-sampleiter R-cast
@@ -303,6 +505,7 @@ pub mod unit_nuts {
         //@|         assert(self.epsilon == da_eps(pre.mu, m1, pre.gamma, hb));
         //@|         assert(self.epsilon_bar == da_eps_bar(pre.epsilon_bar, self.epsilon, m1, pre.kappa));
         //@|     }
+        //@|     lemma_outer_lens::<B, GTarget>(&pre.target, e0, st0.1, st0.2, true, st0.0, j as nat);
         //@|     assert(da_post::<B, GTarget>(pre, *self, mk(last.alpha), last.n_alpha as int));
         //@|     assert(nuts_step_at::<B, GTarget>(pre, *self, j as nat, true));
         //@| }
